@@ -198,6 +198,82 @@ func (r *Runner) execMacro(a Action) {
 			}
 		}
 		r.exec(Action{Op: "heal"})
+	case "succcrash":
+		// three voters: C lags behind leader A; A is cut off; B is elected with C's
+		// vote and crashes before it has caught C up. A and C - a majority - are
+		// connected again while B stays down: A (complete log, one term behind C)
+		// must be elected within the bound and C must catch up (C12/R1 is judged
+		// here, before the quiet phase brings B back)
+		li, A := r.leader()
+		if A == nil || r.stillCut(A.ID()) || len(r.P.Proto) > 0 {
+			return
+		}
+		cfg := r.cfgOf(A)
+		var others []int
+		for _, s := range cfg.Servers {
+			for i, id := range r.ids {
+				if string(s.ID) == id && i != li && s.Suffrage == raft.Voter && r.live(i) != nil {
+					others = append(others, i)
+				}
+			}
+		}
+		if len(cfg.Servers) != 3 || len(others) != 2 || r.P.NoPreVote[li] || r.P.NoPreVote[others[0]] || r.P.NoPreVote[others[1]] {
+			return
+		}
+		ci, bi := others[a.N%2], others[1-a.N%2]
+		termA := A.R.CurrentTerm()
+		r.exec(Action{Op: "isolate", Srv: ci})
+		r.doApply(A, 2+a.Arg%4, 0)
+		w.Advance(30*time.Millisecond, r.sample)
+		r.exec(Action{Op: "heal"})
+		r.exec(Action{Op: "isolate", Srv: li})
+		w.Mu.Lock()
+		r.aeBudget, r.aeUsed = map[string]int{r.ids[bi]: 0, r.ids[ci]: 0}, map[string]int{}
+		r.lastFaultMs = w.Now()
+		w.Mu.Unlock()
+		var W *sim.Instance
+		for step := 0; step < 400 && W == nil; step++ {
+			w.Advance(5*time.Millisecond, r.sample)
+			for _, i := range others {
+				if in := r.live(i); in != nil && in.R.State() == raft.Leader && in.R.CurrentTerm() > termA {
+					W = in
+				}
+			}
+		}
+		w.Advance(time.Duration(2+a.Dt%5)*time.Millisecond, r.sample)
+		w.Mu.Lock()
+		r.aeBudget = nil
+		r.lastFaultMs = w.Now()
+		w.Mu.Unlock()
+		C, B := r.live(ci), r.live(bi)
+		if W == nil || W != B || C == nil || r.live(li) != A || C.R.CurrentTerm() != B.R.CurrentTerm() || C.R.LastIndex() >= A.R.LastIndex() || A.R.CurrentTerm() != termA {
+			r.exec(Action{Op: "heal"})
+			return
+		}
+		B.Crash()
+		r.reapDead()
+		r.exec(Action{Op: "heal"})
+		r.feat("successor-crashed-before-catching-up-its-voter")
+		bound := 30 * r.maxHB()
+		var L2 *sim.Instance
+		for t := time.Duration(0); t < bound && L2 == nil; t += 5 * time.Millisecond {
+			w.Advance(5*time.Millisecond, r.sample)
+			if r.live(li) != A || r.live(ci) != C {
+				break
+			}
+			_, L2 = r.leader()
+		}
+		if L2 == nil && r.live(li) == A && r.live(ci) == C {
+			w.Mu.Lock()
+			w.ViolateLocked("C12", "R1", "C12/R1/no-leader-with-a-connected-majority-while-the-last-leader-is-down", "%s (term %d, last index %d) and %s (term %d, last index %d) are two of three voters and have been connected, fault-free, for %v (30 election timeouts) while %s is down: no leader (states %v / %v)",
+				A.ID(), A.R.CurrentTerm(), A.R.LastIndex(), C.ID(), C.R.CurrentTerm(), C.R.LastIndex(), bound, r.ids[bi], A.R.State(), C.R.State())
+			w.Mu.Unlock()
+		}
+		if L2 != nil {
+			r.doApply(L2, 1, 0)
+			w.Advance(40*time.Millisecond, r.sample)
+		}
+		r.restart(bi)
 	case "suffragecut":
 		// a follower loses its vote under this leader (committed), then the
 		// leader is cut off together with the non-voters: the demoted server
